@@ -12,7 +12,8 @@ import tempfile
 from gv import gen
 from gv.oracle import canon, mset
 
-FAMILIES = ["json", "basic", "mset", "xml", "csv", "plist", "dataclass", "pyobj"]
+FAMILIES = ["json", "basic", "mset", "xml", "csv", "plist", "dataclass", "pyobj", "file"]
+FILE_TYPES = ["json", "json5", "yaml", "pickle"]   # "file": the same kind of data, loaded from disk by the real Filetype loaders
 
 _tmpdir = None
 
@@ -112,9 +113,21 @@ def _xs(r, lo=1):
     return "".join(r.choice("abc") for _ in range(r.randint(lo, 4)))
 
 
+# character data that a serialiser, a line-oriented output path or an escaping step could treat specially: Unicode line boundaries
+# (str.splitlines() splits at U+0085, U+2028, U+2029 as well as at "\n"), markup characters, quotes, non-ASCII, inner blanks
+XML_TEXTS = ["a\u2028b", "x\x85y", "p\u2029q", "a&b", "a<b>c", "q\"r's", "\u00e9", "a b", "\u65e5\u672c", "a&amp;b", "]]>x", "x\U0001F600y"]
+
+
+def _xt(r, lo=1):
+    """Text of an element or value of an attribute."""
+    if r.random() < 0.12:
+        return r.choice(XML_TEXTS)
+    return _xs(r, lo)
+
+
 def gen_xml(r, d=0):
     kids = [gen_xml(r, d + 1) for _ in range(r.randint(0, 3))] if d < 3 else []
-    return [_xs(r), {_xs(r): _xs(r, 0) for _ in range(r.randint(0, 2))}, _xs(r) if r.random() < 0.5 else None, kids]
+    return [_xs(r), {_xs(r): _xt(r, 0) for _ in range(r.randint(0, 2))}, _xt(r) if r.random() < 0.5 else None, kids]
 
 
 def mut_xml(r, x):
@@ -123,7 +136,7 @@ def mut_xml(r, x):
         t = _xs(r)
     if r.random() < 0.3:
         at = dict(at)
-        at[_xs(r)] = _xs(r, 0)
+        at[_xs(r)] = _xt(r, 0)
     if at and r.random() < 0.2:
         at = dict(at)
         at.pop(r.choice(list(at)))
@@ -132,7 +145,7 @@ def mut_xml(r, x):
         k = r.choice(list(at))
         at[k + "x"] = at.pop(k)
     if r.random() < 0.3:
-        tx = _xs(r) if r.random() < 0.7 else None
+        tx = _xt(r) if r.random() < 0.7 else None
     kids = [mut_xml(r, k) if r.random() < 0.4 else k for k in kids]
     if kids and r.random() < 0.3:
         kids = kids[:]
@@ -192,7 +205,8 @@ def gen_case(r, family, prof=None, ds=None, le=None):
         return {"family": family, "a": a, "b": b, "ds": ds, "le": le}
     if family == "csv":
         def cell():
-            return r.choice(["", "a", "ab", "abc", "b", "1", "2", "10", "x y", "a,b", 'q"q', "l1\nl2", " a ", "é"])
+            return r.choice(["", "a", "ab", "abc", "b", "1", "2", "10", "x y", "a,b", 'q"q', "l1\nl2", " a ", "é",
+                             "a\u2028b", "x\x85y", "p\x0bq", "f\x0cg", "s\x1ct", "u\x1ev", "p\u2029q"])
         def table():
             w = r.randint(0, 4)
             return [[cell() for _ in range(r.choice([w, w, r.randint(0, 4)]))] for _ in range(r.randint(0, 5))]
@@ -216,6 +230,14 @@ def gen_case(r, family, prof=None, ds=None, le=None):
         else:
             b = table()
         return {"family": family, "a": a, "b": b, "ds": ds, "le": le}
+    if family == "file":
+        # data files in the dialects formats.write() produces (JSON5 syntax, YAML flow style / anchors and aliases / multi-document
+        # streams, pickles with shared objects), each side in its own type
+        from gv import formats
+        a = formats.common_data(r)
+        x = r.random()
+        b = copy.deepcopy(a) if x < 0.06 else (formats.mutate_common(r, a) if x < 0.85 else formats.common_data(r))
+        return {"family": family, "a": a, "b": b, "ds": ds, "le": le, "ta": r.choice(FILE_TYPES), "tb": r.choice(FILE_TYPES)}
     if family in ("plist", "dataclass", "pyobj"):
         p = gen.Profile("plist", strings="alpha", bool_with_01=False, numeric_strings=False, none=False, big_ints=False,
                         floats=True)
@@ -273,6 +295,12 @@ def build(case):
     a, b = case["a"], case["b"]
     if fam == "json":
         return gj.build_tree(a, opts), gj.build_tree(b, opts)
+    if fam == "file":
+        import graphtage
+        from gv import formats
+        def load(doc, t):
+            return graphtage.FILETYPES_BY_TYPENAME[t].build_tree(tmpfile(formats.write(t, doc), formats.EXT[t]), opts)
+        return load(a, case.get("ta", "json")), load(b, case.get("tb", "json"))
     if fam == "basic":
         from graphtage.builder import BasicBuilder
         return BasicBuilder(opts).build_tree(dec(a)), BasicBuilder(opts).build_tree(dec(b))
@@ -317,7 +345,7 @@ def build(case):
 
 def truth(case):
     fam = case["family"]
-    if fam == "json":
+    if fam in ("json", "file"):
         return canon(case["a"]), canon(case["b"])
     if fam == "basic":
         return canon(dec(case["a"])), canon(dec(case["b"]))
@@ -331,6 +359,17 @@ def truth(case):
 def shrink_case(case):
     fam = case["family"]
     a, b = case["a"], case["b"]
+    if fam == "file":
+        for t in ("ta", "tb"):
+            if case.get(t) != "json":
+                c = dict(case)
+                c[t] = "json"
+                yield c
+        for x, y in gen.shrink_pair(a, b):
+            if isinstance(x, (dict, list)) and isinstance(y, (dict, list)) and x and y:
+                c = dict(case)
+                c["a"], c["b"] = x, y
+                yield c
     if fam in ("json", "plist", "dataclass", "pyobj", "mset", "csv"):
         for x, y in gen.shrink_pair(a, b):
             c = dict(case)
